@@ -42,6 +42,36 @@ class DT:
         return self.code
 
 
+class Obj:
+    """An abstract object with named attributes; callable attributes act as methods.  `kind` answers isinstance()."""
+    def __init__(self, kind: str, **attrs: Any):
+        self.kind = kind
+        self.attrs = attrs
+
+    def __repr__(self) -> str:
+        return f"<{self.kind} {self.attrs.get('name', '')!r}>"
+
+
+def _repr(v: Any) -> str:
+    if isinstance(v, Obj):
+        return f"{v.kind}({v.attrs.get('value')!r})"
+    if isinstance(v, DT):
+        return f"DataType.{v.name}"
+    return repr(v)
+
+
+def _str(v: Any) -> str:
+    return _repr(v) if isinstance(v, (Obj, DT)) else str(v)
+
+
+class _Continue(Exception):
+    pass
+
+
+class _Break(Exception):
+    pass
+
+
 class _Return(Exception):
     def __init__(self, value: Any):
         self.value = value
@@ -149,6 +179,27 @@ class Evaluator:
                 raise EvalRaise(nm)
             elif isinstance(st, ast.Pass):
                 continue
+            elif isinstance(st, ast.For) and not st.orelse:
+                it = self.eval(st.iter, env, fi, depth)
+                if not isinstance(it, (list, tuple, frozenset, range, dict)):
+                    raise EvalRaise("TypeError") if it is None or isinstance(it, (int, float)) else Unsupported("iteration over an abstract value")
+                for item in list(it):
+                    self.assign(st.target, item, env)
+                    try:
+                        self.block(st.body, env, fi, depth)
+                    except _Continue:
+                        continue
+                    except _Break:
+                        break
+            elif isinstance(st, ast.Continue):
+                raise _Continue()
+            elif isinstance(st, ast.Break):
+                raise _Break()
+            elif isinstance(st, ast.AugAssign) and isinstance(st.target, ast.Name):
+                fn = _BIN.get(type(st.op))
+                if fn is None or st.target.id not in env:
+                    raise Unsupported("augmented assignment")
+                env[st.target.id] = fn(env[st.target.id], self.eval(st.value, env, fi, depth))
             else:
                 raise Unsupported(f"statement {type(st).__name__} at line {st.lineno}")
 
@@ -190,6 +241,10 @@ class Evaluator:
                 if len(parts) >= 2 and parts[-2] == "DataType" and parts[-1] in self.dtypes:
                     return self.dtypes[parts[-1]]
             base = self.eval(e.value, env, fi, depth)
+            if isinstance(base, Obj):
+                if e.attr in base.attrs:
+                    return base.attrs[e.attr]
+                raise EvalRaise("AttributeError")
             if isinstance(base, DT):
                 if e.attr == "bitwidth":
                     if base.bits is None:
@@ -274,6 +329,17 @@ class Evaluator:
                 raise EvalRaise("KeyError")
         if isinstance(e, ast.Call):
             return self.eval_call(e, env, fi, depth)
+        if isinstance(e, ast.JoinedStr):
+            parts = []
+            for v in e.values:
+                if isinstance(v, ast.Constant):
+                    parts.append(str(v.value))
+                elif isinstance(v, ast.FormattedValue) and v.format_spec is None:
+                    val = self.eval(v.value, env, fi, depth)
+                    parts.append(_repr(val) if v.conversion == 114 else _str(val))
+                else:
+                    raise Unsupported("format spec")
+            return "".join(parts)
         if isinstance(e, (ast.ListComp, ast.GeneratorExp, ast.SetComp)) and len(e.generators) == 1 and not e.generators[0].is_async:
             gen = e.generators[0]
             it = self.eval(gen.iter, env, fi, depth)
@@ -294,6 +360,23 @@ class Evaluator:
         if any(isinstance(a, ast.Starred) for a in e.args) or any(k.arg is None for k in e.keywords):
             raise Unsupported("star args")
         cn = call_name(e) or ""
+        if cn == "isinstance" and len(e.args) == 2:
+            o = self.eval(e.args[0], env, fi, depth)
+            types = e.args[1].elts if isinstance(e.args[1], ast.Tuple) else [e.args[1]]
+            for t in types:
+                tn = (dotted(t) or "").split(".")[-1]
+                if tn in ("str", "int", "float", "bool", "tuple", "list", "dict"):
+                    if isinstance(o, {"str": str, "int": int, "float": float, "bool": bool, "tuple": tuple, "list": list, "dict": dict}[tn]) and not (tn == "int" and isinstance(o, bool)):
+                        return True
+                elif tn in ("Sequence", "Iterable", "Collection") and isinstance(o, (list, tuple)):
+                    return True
+                elif tn in ("bytes", "bytearray") :
+                    continue
+                elif tn and isinstance(o, Obj) and o.kind == tn:
+                    return True
+                elif not tn:
+                    raise Unsupported("isinstance type expression")
+            return False
         args = [self.eval(a, env, fi, depth) for a in e.args]
         kwargs = {k.arg: self.eval(k.value, env, fi, depth) for k in e.keywords}
         last = cn.split(".")[-1]
@@ -301,6 +384,27 @@ class Evaluator:
             return self.stubs[cn](*args, **kwargs)
         if cn in ("bool",) and len(args) == 1:
             return self.truth(args[0])
+        if cn == "repr" and len(args) == 1:
+            return _repr(args[0])
+        if cn == "str" and len(args) == 1:
+            return _str(args[0])
+        if cn == "hasattr" and len(args) == 2 and isinstance(args[1], str):
+            if isinstance(args[0], Obj):
+                return args[1] in args[0].attrs
+            if args[0] is None or isinstance(args[0], (int, str, float, tuple, list)):
+                return hasattr(args[0], args[1])
+            raise Unsupported("hasattr on a non-abstract object")
+        if cn == "getattr" and len(args) in (2, 3) and isinstance(args[1], str):
+            o = args[0]
+            if isinstance(o, Obj):
+                if args[1] in o.attrs:
+                    return o.attrs[args[1]]
+                if len(args) == 3:
+                    return args[2]
+                raise EvalRaise("AttributeError")
+            if o is None and len(args) == 3:
+                return args[2]
+            raise Unsupported("getattr on a non-abstract object")
         if cn == "int" and len(args) == 1:
             return args[0].code if isinstance(args[0], DT) else int(args[0])
         if cn in ("max", "min", "abs", "len", "tuple", "list", "sorted", "range", "sum", "any", "all", "set", "zip", "enumerate", "reversed"):
@@ -325,6 +429,11 @@ class Evaluator:
                 recv = Unsupported
             if recv is not Unsupported:
                 m = e.func.attr
+                if isinstance(recv, Obj):
+                    f_ = recv.attrs.get(m)
+                    if callable(f_):
+                        return f_(*args, **kwargs)
+                    raise EvalRaise("AttributeError" if f_ is None else "TypeError")
                 if isinstance(recv, DT):
                     if m == "is_integer":
                         return recv.integer
@@ -333,6 +442,11 @@ class Evaluator:
                     if m == "is_floating_point":
                         return recv.floating
                     raise Unsupported(f"DataType method {m}")
+                if isinstance(recv, list) and m in ("append", "extend", "insert", "pop", "index", "count"):
+                    try:
+                        return getattr(recv, m)(*args)
+                    except Exception:
+                        raise EvalRaise("ValueError")
                 if isinstance(recv, dict) and m == "get":
                     return recv.get(args[0], args[1] if len(args) > 1 else None)
                 if isinstance(recv, str) and m in ("startswith", "endswith", "isdigit", "isalpha", "isalnum", "lower", "upper", "strip", "lstrip", "rstrip",
